@@ -318,6 +318,25 @@ def xop_regrule(node, op):
     return None
 
 
+def xop_regdrule(node, op):
+    """['regdrule', None, type_slot]: a downstream library registers a differentiation rule
+    for its (late) unary operator type on UFL's own GenericDerivativeRuleset: d T(f) = T'(f) df
+    with T' := 2, a rule that differs from every inherited one."""
+    from ufl.algorithms.apply_derivatives import GenericDerivativeRuleset
+    from ufl.corealg.dag_traverser import DAGTraverser
+
+    t = node.dec(op[2])
+    if getattr(t, "_sim_kind", None) not in ("op", "math", "cmp") or t._ufl_num_ops_ != 1:
+        raise Skip("regdrule-kind")
+
+    @DAGTraverser.postorder
+    def rule(self, o, fp):
+        return 2 * fp
+
+    GenericDerivativeRuleset.process.register(t)(rule)
+    return None
+
+
 def xop_mkalg(node, op):
     """['mkalg', out, class_slot]: instantiate (first instantiation fills the class cache)."""
     _, out, cslot = op
@@ -447,6 +466,12 @@ _REAL_ALGS = {
         "ufl.algorithms.apply_geometry_lowering.apply_geometry_lowering"
     )(e),
     "formatter_tree": lambda e: ops.resolve("ufl.algorithms.formatting.tree_format")(e),
+    # derivative rule-sets (DAGTraverser based): spatial and Gateaux derivative of the expression
+    "grad_expand": lambda e: ops.resolve("ufl.algorithms.expand_derivatives")(ops.resolve("ufl.grad")(e)),
+    "gateaux_expand": lambda e: ops.resolve("ufl.algorithms.expand_derivatives")(
+        ops.resolve("ufl.derivative")(e, ops.resolve("ufl.algorithms.extract_coefficients")(e)[0])
+    ),
+    "ufl2unicode": lambda e: ops.resolve("ufl.formatting.ufl2unicode.ufl2unicode")(e),
     "apply_coefficient_split_none": lambda e: e,
 }
 
